@@ -59,8 +59,7 @@ theorem sorted_absI (cfg : Cfg) (i : Inst) (hi : InstOK cfg i) : AL.Sorted (absI
   AL.sorted_mapV _ _ hi.srt
 
 theorem save_abs (cfg : Cfg) (i : Inst) (k : Key) (t : MRec) (raised : Bool)
-    (hi : InstOK cfg i) (hwf : t.c.WF)
-    (hsame : ∀ told, AL.find k i.recs = some told → t.changed = false → t.abs = told.abs) :
+    (hi : InstOK cfg i) (hwf : t.c.WF) :
     InstOK cfg (Model.save cfg i k t raised).1 ∧
     absI (Model.save cfg i k t raised).1 = AL.insert k t.abs (absI i) ∧
     (Model.save cfg i k t raised).1.recs ≠ [] := by
@@ -80,12 +79,11 @@ theorem save_abs (cfg : Cfg) (i : Inst) (k : Key) (t : MRec) (raised : Bool)
       · simp only [absI]; rw [← AL.insert_mapV, cleared_abs]
     | false =>
       simp only [Bool.false_eq_true, if_false]
-      have habs : t.abs = told.abs := hsame told hf hc
-      have hfa : AL.find k (absI i) = some t.abs := by rw [find_absI, hf, habs]; rfl
       by_cases he : t = told
       · simp only [he, if_true]
+        have hfa : AL.find k (absI i) = some told.abs := by rw [find_absI, hf]; rfl
         refine ⟨hi, ?_, hne⟩
-        rw [← he, AL.insert_same k t.abs (absI i) (sorted_absI cfg i hi) hfa]
+        rw [AL.insert_same k told.abs (absI i) (sorted_absI cfg i hi) hfa]
       · simp only [he, if_false]
         have hclean : RecOK cfg t := ⟨hwf, fun _ => hc⟩
         refine ⟨instOK_insert cfg i k t hi hclean _ rfl hi.infl, ?_, AL.insert_ne_nil _ _ _⟩
